@@ -77,6 +77,19 @@ pub enum Step {
     Resume { p: u8, pause: Option<u8> },
     /// drop every pool handle the harness owns (objects keep only weak references)
     DropPool,
+    /// retain(pred) is held inside its predicate (the pool's lock is taken) while `inner`
+    /// is started on another thread; then both are let go
+    Contend { pred: Pred, inner: Inner },
+}
+
+/// operation that is started while another thread holds the pool's lock
+#[derive(Clone, Copy, Debug, Serialize, Deserialize, PartialEq, Eq, Hash)]
+pub enum Inner {
+    Get { zero_wait: bool },
+    Return { h: u8 },
+    Take { h: u8 },
+    Status,
+    Resize { n: u8 },
 }
 
 #[derive(Clone, Debug, Serialize, Deserialize, PartialEq, Eq, Hash)]
@@ -141,6 +154,7 @@ impl Step {
             Step::Status => "Status",
             Step::Resume { .. } => "Resume",
             Step::DropPool => "DropPool",
+            Step::Contend { .. } => "Contend",
         }
     }
     pub fn pause(&self) -> Option<u8> {
